@@ -42,3 +42,10 @@ func VerifSimTaskExecuting(t *Task) bool { return t.executing }
 
 // VerifSimMarkStopped makes TriggerEvent / NewTask on m no-ops (its stop flag is set).
 func VerifSimMarkStopped(m *Module) { m.stopFlag.Set() }
+
+// VerifSimSetClearanceQueue replaces the microtask clearance queues by ones of the given capacity (a tuning knob:
+// the shipped capacity of GOMAXPROCS*100 keeps the queue-full paths out of reach of small workloads).
+func VerifSimSetClearanceQueue(n int) {
+	mediumPriorityClearance = make(chan chan struct{}, n)
+	lowPriorityClearance = make(chan chan struct{}, n)
+}
